@@ -138,7 +138,7 @@ func c16(r *ev.Reporter, _ []string) {
 		}
 	}
 	// (b) history-based schemes
-	for _, n := range []int{4, 7} {
+	for _, n := range []int{4, 7, 10} {
 		c16History(r, n)
 	}
 	r.Traces = r.Evaluations
@@ -182,6 +182,20 @@ func c16History(r *ev.Reporter, n int) {
 	const chainLen = 3
 	seeds := []int64{0, 1, 1 << 62}
 	sets := subsetsAtLeast(n, q)
+	propAlphabet := n
+	if n > 7 {
+		// larger clusters (f >= 3): proposers from {1,2,3,4}, a few signer sets that contain them
+		propAlphabet = 4
+		var keep [][]hotstuff.ID
+		for _, s := range sets {
+			if len(s) == q && s[0] == 1 && s[1] == 2 && s[2] == 3 && len(keep) < 4 {
+				keep = append(keep, s)
+			}
+		}
+		keep = append(keep, sets[len(sets)-1]) // all replicas
+		sets = keep
+		seeds = []int64{0, 1, 2, 3, 4, 5, 1 << 62}
+	}
 	mk := func(seed int64, k int) ([]rotInst, *fix.Cluster) {
 		c := fix.NewCluster(k, crypto.NameEDDSA, fix.Opts{Extra: []core.RuntimeOption{core.WithSharedRandomSeed(seed)}})
 		// the rotation only needs ReplicaCount()==n: add the remaining ids
@@ -210,7 +224,7 @@ func c16History(r *ev.Reporter, n int) {
 			fn()
 			return
 		}
-		for id := 1; id <= n; id++ {
+		for id := 1; id <= propAlphabet; id++ {
 			props[k] = hotstuff.ID(id)
 			recP(k+1, fn)
 		}
@@ -280,6 +294,9 @@ func c16History(r *ev.Reporter, n int) {
 	setsR := sets
 	if n == 7 && r.Quick() {
 		setsR = sets[:8]
+	}
+	if n > 7 {
+		return // reputation: covered for n in {4,7}
 	}
 	for _, seed := range seeds {
 		idx := make([]int, seqLen)
